@@ -148,6 +148,25 @@ def r_opaque_fee_lower_bounds(prog):
     return out, n
 
 
+def r_single_entry_intcblock(prog):
+    """Counterfactual for the listed constant-block finding: the same constants in ONE intcblock at the very start
+    (a doubled block is dropped, a block behind `b ICB0; ICB0:` is moved to the entry).  Same executions."""
+    prog = list(prog)
+    blocks = [k for k, i in enumerate(prog) if i[0] == "intcblock"]
+    if not blocks:
+        return prog, 0
+    late = len(prog) >= 3 and prog[0] == ("b", "ICB0") and prog[1] == ("label", "ICB0") and blocks[0] == 2
+    if len(blocks) == 1 and not late:
+        return prog, 0
+    if any(prog[k] != prog[blocks[0]] for k in blocks):
+        return prog, 0
+    icb = prog[blocks[0]]
+    rest = [i for k, i in enumerate(prog) if k not in blocks]
+    if late:
+        rest = rest[2:]
+    return [icb] + rest, 1
+
+
 def _sub_ranges(prog):
     """{name: (start, end)} for subroutine bodies that are contiguous instruction ranges, else None."""
     ref = RefCFG(list(prog))
@@ -291,6 +310,8 @@ def fragment(v, case, reeval):
         return None
     chain = [("int-field-constant-first-operand", r_swap_int_field_operands),
              ("end-of-program-fallthrough-not-an-exit", r_append_return)]
+    if v.get("detector") == "missing-fee-check" and v.get("kind") == "missed":
+        chain.append(("fee-compared-with-constant-of-unresolved-constant-block", r_single_entry_intcblock))
     label = v.get("type_label") or DET_LABEL.get(v.get("detector"))
     if label in TYPE_DIM:
         chain.append(("txn-type-cross-dimension-label-drop", lambda p, f=TYPE_DIM[label]: r_opaque_reads(p, f)))
